@@ -17,7 +17,7 @@ import drivercases as dc
 from asyncchecks import project_async
 from simgen import EINTR, EAGAIN, EPIPE, ECONNRESET, ENOMEM, EMSGSIZE, ENOBUFS, EMFILE, ECONNABORTED, EBADF, POLLIN, POLLOUT, POLLERR, POLLHUP
 
-THEOREMS = ["tcp_constructor_ledger", "udp_constructor_ledger", "acceptor_constructor_ledger", "accept_ledger",
+THEOREMS = ["tcp_constructor_ledger", "udp_constructor_ledger", "acceptor_constructor_ledger", "accept_ledger", "driver_constructor_ledger",
             "first_failure_is_thrown", "silent_drop_refuted", "ledger_balanced_all_programs", "everything_destroyed_nothing_leaked"]
 
 EACCES, EADDRINUSE, ECONNREFUSED, ENFILE, EINVAL, ENOTCONN, ETIMEDOUT, EIO, ENETUNREACH, EHOSTUNREACH = 13, 98, 111, 23, 22, 107, 110, 5, 101, 113
